@@ -17,8 +17,8 @@ func init() {
 		// keys 0..5 collide in one chain with equal h2 (bucket 0 of any table size), 6..9 go to bucket 1
 		same := []uint64{hsh(0, 5), hsh(0, 5), hsh(0, 5), hsh(0, 5), hsh(0, 5), hsh(0, 5), hsh(1, 7), hsh(1, 7), hsh(1, 8), hsh(1, 9), hsh(1, 10)}
 		// spread: after growth 2->4 keys separate: h1 = 0,2 share bucket 0 in a 2-table but split in a 4-table
-		spread := []uint64{hsh(0, 1), hsh(2, 2), hsh(4, 3), hsh(6, 4), hsh(0, 5), hsh(2, 6), hsh(1, 7), hsh(3, 8), hsh(1, 9), hsh(3, 10), hsh(5, 11)}
-		fill8 := []string{"ins 0", "ins 1", "ins 2", "ins 3", "ins 4", "ins 6", "ins 7", "ins 8"} // bucket 0 full (5), bucket 1 has 3: next insert into bucket 0 grows
+		spread := []uint64{hsh(0, 1), hsh(2, 2), hsh(4, 3), hsh(6, 4), hsh(0, 5), hsh(2, 6), hsh(1, 7), hsh(3, 8), hsh(1, 9), hsh(3, 10), hsh(5, 11), hsh(4, 12)} // key 11: even h1, bucket 0 of a 2-bucket table like keys 0-5
+		fill8 := []string{"ins 0", "ins 1", "ins 2", "ins 3", "ins 4", "ins 6", "ins 7", "ins 8"}                                                                 // bucket 0 full (5), bucket 1 has 3: next insert into bucket 0 grows
 		if !thorough {
 			// H1: get / insert / delete / update in one chain incl. overflow bucket (6 colliding keys)
 			add(c15Params{Hashes: same, Setup: []string{"ins 0", "ins 1", "ins 2", "ins 3", "ins 4"}, Threads: [][]string{{"ins 5", "get 0"}, {"del 0", "get 5"}, {"get 5", "get 0"}}}, "small", 2, 8, 60)
@@ -36,6 +36,10 @@ func init() {
 			add(c15Params{Hashes: spread, Setup: []string{"ins 0", "ins 1"}, Threads: [][]string{{"clear"}, {"ins 2", "get 0"}, {"del 1", "get 2"}}}, "small", 2, 8, 60)
 			// H6: two growers
 			add(c15Params{Hashes: spread, Setup: fill8, Threads: [][]string{{"ins 5", "get 10"}, {"ins 10", "get 5"}}}, "small", 3, 8, 60, "grew")
+			// two real growers: both insert into the full chain of bucket 0 and both decide to resize the same table
+			add(c15Params{Hashes: spread, Setup: fill8, Threads: [][]string{{"ins 5", "get 11"}, {"ins 11", "get 5"}}}, "small", 2, 8, 60, "grew-twice")
+			// a shrink decided on a table that a concurrent Clear / shrink has already replaced
+			add(c15Params{Hashes: spread, Setup: append(append([]string{}, fill8...), "ins 5", "del 0", "del 1", "del 2", "del 3", "del 4", "del 6", "del 7"), Threads: [][]string{{"del 5", "get 9"}, {"del 8", "ins 9", "get 9"}}}, "small", 2, 8, 60, "shrank")
 			return jobs
 		}
 		add(c15Params{Hashes: same, Setup: []string{"ins 0", "ins 1", "ins 2", "ins 3", "ins 4"}, Threads: [][]string{{"ins 5", "get 0"}, {"del 0", "get 5"}, {"get 5", "get 0"}}}, "small", 3, 16, 400)
@@ -47,6 +51,8 @@ func init() {
 		add(c15Params{Hashes: same, Setup: []string{"ins 0", "ins 1", "ins 2", "ins 3", "ins 4"}, Threads: [][]string{{"range"}, {"del 0", "ins 5", "ins 0"}, {"get 0"}}}, "small", 3, 16, 400)
 		add(c15Params{Hashes: spread, Setup: []string{"ins 0", "ins 1"}, Threads: [][]string{{"clear"}, {"ins 2", "get 0"}, {"del 1", "get 2"}}}, "small", 3, 16, 400)
 		add(c15Params{Hashes: spread, Setup: fill8, Threads: [][]string{{"ins 5", "get 10"}, {"ins 10", "get 5"}}}, "small", 4, 16, 400, "grew")
+		add(c15Params{Hashes: spread, Setup: fill8, Threads: [][]string{{"ins 5", "get 11"}, {"ins 11", "get 5"}, {"get 5", "get 11"}}}, "small", 3, 16, 400, "grew-twice")
+		add(c15Params{Hashes: spread, Setup: append(append([]string{}, fill8...), "ins 5", "del 0", "del 1", "del 2", "del 3", "del 4", "del 6", "del 7"), Threads: [][]string{{"del 5", "get 9"}, {"del 8", "ins 9", "get 9"}, {"clear", "ins 1"}}}, "small", 3, 16, 400, "shrank")
 		// parallel copy path (chunks > 1): small variant has minBucketsPerGoroutine=1, Procs=2
 		add(c15Params{Hashes: spread, Setup: fill8, Procs: 2, Threads: [][]string{{"ins 5"}, {"get 0", "ins 9"}}}, "small", 2, 16, 400, "grew")
 		// native constants: 32-bucket table
